@@ -119,6 +119,7 @@ SPECTRAL = {"eigenvector_centrality", "nsi_eigenvector_centrality", "pagerank",
             "msf_synchronizability", "newman_betweenness",
             "nsi_newman_betweenness", "arenas_betweenness",
             "nsi_arenas_betweenness", "spreading", "nsi_spreading"}
+DEGENERATE = {"eigenvector_centrality", "nsi_eigenvector_centrality"}
 SKIP = {"sp_Aplus", "sp_diag_w", "sp_diag_w_inv", "sp_diag_sqrt_w",
         "sp_nsi_diag_k", "sp_nsi_diag_k_inv", "distance_based_measures"}
 
@@ -171,8 +172,10 @@ def check_network(ctx, A, w, directed, plist):
     with warnings.catch_warnings():
         warnings.simplefilter("ignore")
         for name, call in qs:
-            if name in SPECTRAL and (directed or not conn):
-                continue     # spectral / random-walk measures: connected undirected only
+            if name in SPECTRAL and directed:
+                continue     # spectral / random-walk measures: undirected only
+            if name in DEGENERATE and not conn:
+                continue     # leading eigenvector not unique on several components
             if ("key" in name or "lw" in name or name == "link_attribute"
                     or name == "weighted_local_clustering") and not has_links:
                 continue
